@@ -282,6 +282,40 @@ fn history_case(ctx: &mut Ctx, case: u64, rng: &mut Rng, scratch: &Scratch) {
                             }
                         }
                     }
+                    // The same report as it may come over the wire from a peer that names an author
+                    // twice, the older timestamp before or after the newer one (added after seeded change
+                    // agent-C13-7). The report names a strictly newer timestamp for exactly the same
+                    // authors as before, so the verdict must be the same.
+                    if rng.chance(1, 2) && !report.is_empty() {
+                        let mut items: Vec<(u64, AuthorId)> = report.iter().map(|(a, t)| (*t, *a)).collect();
+                        rng.shuffle(&mut items);
+                        let k = rng.below(items.len());
+                        let (t, a) = items[k];
+                        let older = (t.saturating_sub(1 + rng.below(3) as u64), a);
+                        if rng.chance(1, 2) {
+                            items.push(older);
+                        } else {
+                            items.insert(0, older);
+                        }
+                        let bytes = postcard::to_stdvec(&items).unwrap();
+                        ctx.count("news_checks_on_wire_reports_naming_an_author_twice", 1);
+                        match AuthorHeads::decode(&bytes) {
+                            Err(_) => {} // refusing such a report is not a wrong verdict
+                            Ok(wire_report) => match store.has_news_for_us(id, &wire_report) {
+                                Err(e) => {
+                                    ctx.violation(case, "has-news-failed", json!({"err": format!("{e:?}")}));
+                                    return;
+                                }
+                                Ok(got) => {
+                                    let got = got.map(|n| n.get()).unwrap_or(0);
+                                    if got != expect {
+                                        ctx.violation(case, "news-count-differs[author-named-twice]", json!({"doc": dd, "step": step, "report": spec, "expected": expect, "got": got, "trace": trace}));
+                                        return;
+                                    }
+                                }
+                            },
+                        }
+                    }
                 }
             }
             let dm = match dump(&mut store, id) {
